@@ -113,6 +113,12 @@ SYNTAX = [
     ("syntax_multibyte_before_error_column", "Zz1 = '\u00e9\u00e9\u00e9\u00e9' ) 'x';\n"),
 ]
 
+for _pad in range(6):
+    # the error column moves byte by byte relative to the multi-byte characters around it (any windowing of the
+    # offending line at raw byte offsets lands inside a character for some of them)
+    SYNTAX.append(("syntax_long_multibyte_line_%d" % _pad, "Zz1 = " + "x" * _pad + " '\u00e9\u2192\u0171' " * 40 + "} ? 'caf\u00e9' " + "'\u00e9\u2192' " * 30 + ";\n"))
+    SYNTAX.append(("syntax_long_multibyte_line_mid_%d" % _pad, "# \u00e9\u00e9\u00e9\nZz1 = " + "'\U0001F600' " * (20 + _pad) + ")" + " '\u00e9' " * 50 + ";\n"))
+
 # classes the property's rationale names as reaching panic!/unbounded recursion instead of an error
 RATIONALE = [
     ("rule_name_starts_with_digit", "1 = 'a';\n", {}),
@@ -468,12 +474,12 @@ def judge(cell, verdict, info, controls, groups):
     return None
 
 
-def run_cells(cells, seed, d):
+def run_cells(cells, seed, d, labels=None):
     results = [None] * len(cells)
 
     def one(i):
         cell = cells[i]
-        rng = Rng(derive(seed, "c15-env", i))
+        rng = Rng(derive(seed, "c15-env", labels[i] if labels else i))
         cd = os.path.join(d, "c%05d" % i)
         os.makedirs(cd)
         try:
@@ -499,6 +505,18 @@ def run(tier, seed, replay_path=None):
     d = run_dir("c15")
     try:
         results = run_cells(cells, seed, d)
+        # determinism self-test: a spread of cells once more; verdict, status and fired faults must be identical
+        step = max(1, len(cells) // (60 if tier == "quick" else 300))
+        idx = list(range(0, len(cells), step))
+        d2 = os.path.join(d, "again")
+        os.makedirs(d2)
+        again = run_cells([cells[i] for i in idx], seed, d2, idx)
+        def sig(r):  # injected faults without the run directory in their path
+            return (r[0], r[1]["status"], [l.split(" ")[0] + " ->" + l.split("->")[-1] for l in r[1]["fired"]])
+        sdiffs = [cells[i].key() for i, r in zip(idx, again) if sig(r) != sig(results[i])]
+        if sdiffs:
+            raise HarnessError("determinism self-test: cells differed between two executions: %r" % sdiffs[:5])
+        nself = len(idx)
     finally:
         cleanup_run_dir(d)
     controls = {}
@@ -579,6 +597,7 @@ def run(tier, seed, replay_path=None):
         "routes": ROUTES,
         "runs_per_hour": int(len(cells) / max(wall, 1e-6) * 3600),
         "known_findings_hit": ["%s/%s" % k for k in sorted(known_hit)],
+        "determinism_selftest": {"cells_run_twice": nself, "differences": 0},
         "not_decided": "totality over all grammar strings (no panic/hang for every text) is input-space search and is not decided here; only the listed classes and the seeded damages are run",
         "real_components": ["peginator_codegen (library route, Compile) linked from the working tree", "peginator-cli binary built from /repo/cli", "rustfmt", "kernel file system"],
         "stubbed_components": ["I/O errors, short transfers and EINTR are injected at the libc symbol boundary (open/read/write) by the shim", "entropy of the child is seeded"],
